@@ -342,6 +342,10 @@ func main() {
 	for _, c := range closeCases(cap, thorough || fl.Search) {
 		r.eval(c)
 	}
+	// 2d. Subscribe with a context that has already ended
+	for _, c := range preCancelledCases() {
+		r.eval(c)
+	}
 	// 2c. the queue's loop held around its wake-up
 	for _, c := range loopCases(thorough || fl.Search) {
 		r.eval(c)
